@@ -59,8 +59,18 @@ def cases(rng, tier, shard, nshards, phase):
         if rng.random() < 0.7:
             n = rng.randint(2, 5)
             names = gen.gen_names(rng, n)
+            scored = rng.random() < 0.3
             def prof():
-                return [{"r": gen.gen_ranking(rng, n), "w": rat(gen.gen_weight(rng)), "s": []} for _ in range(rng.randint(1, 6))]
+                bs = [{"r": gen.gen_ranking(rng, n), "w": rat(gen.gen_weight(rng)), "s": []} for _ in range(rng.randint(1, 6))]
+                if scored:
+                    # ballots that share a ranking but carry different score dictionaries: the distance is between the
+                    # RANKING distributions, so their weights add up under the one ranking
+                    for b in list(bs):
+                        if rng.random() < 0.6:
+                            bs.append({"r": b["r"], "w": rat(gen.gen_weight(rng)),
+                                       "s": [[rng.randrange(n), rat(rng.randint(1, 3))]]})
+                    rng.shuffle(bs)
+                return bs
             P = prof()
             kind = rng.choice(["independent", "permuted", "condensed", "rescaled", "perturbed", "independent"])
             if kind == "independent":
